@@ -166,14 +166,15 @@ Print Assumptions chunking_irrelevant_translated_chunk_len.
 (* Equivalence: outside the chunk loop and the shortcut the translated function returns what the hand model's stat_view_e
    returns: the same shape and the same value at every index of that shape. *)
 Theorem translated_equals_hand_model :
-  forall (A res : Type) (R : list A -> res) (nan zero : res) (isfin ispos : A -> bool) shape (a : idx -> A)
+  forall (A res : Type) (R : list A -> res) (nan zero : res) (isfin ispos : A -> bool) shape (a : idx -> A) (unb : garr A -> garr A) (st : Z)
          rf fuel (s : selection) (ax : pyaxis) (fin pos : bool) (o : option (list ventry)) ncm,
+    unb_sound A res R isfin ispos unb st ->
     Forall (fun n => 0 <= n) shape ->
     chunk_cond shape s ax (pv o) ncm = false ->
     shortcut s ax (pv o) = false ->
     let M := stat_view_e A res R nan shape a (filt_of A isfin ispos fin pos) (mask_of shape s) (entries o)
                          (red_of_axes (zlen (sel_shape (view_sel shape (entries o)))) (axes_of ax)) in
-    exists r, gen_compute_statistic A res R nan zero isfin ispos shape a (S rf) fuel s ax fin pos (pv o) ncm = Ok r /\
+    exists r, gen_compute_statistic A res R nan zero isfin ispos shape a unb (S rf) fuel st s ax fin pos (pv o) ncm = Ok r /\
               fst r = fst M /\ forall o', in_box (fst r) o' -> snd r o' = snd M o'.
 Proof. exact GenEquiv.translated_equals_hand_model. Qed.
 Print Assumptions translated_equals_hand_model.
@@ -183,15 +184,16 @@ Print Assumptions translated_equals_hand_model.
    corresponding lane of the viewed array, in row-major order. *)
 Theorem translated_statistic_equals_definition :
   forall (A res : Type) (R : list A -> res) (nan zero : res), R [] = nan ->
-  forall (isfin ispos : A -> bool) shape (a : idx -> A) rf fuel (s : selection) (ax : pyaxis) (fin pos : bool)
+  forall (isfin ispos : A -> bool) shape (a : idx -> A) (unb : garr A -> garr A) (st : Z) rf fuel (s : selection) (ax : pyaxis) (fin pos : bool)
          (o : option (list ventry)) ncm,
+    unb_sound A res R isfin ispos unb st ->
     Forall (fun n => 0 <= n) shape ->
     chunk_cond shape s ax (pv o) ncm = false ->
     shortcut s ax (pv o) = false ->
     let sels := view_sel shape (entries o) in
     let vsh := sel_shape sels in
     let red := red_of_axes (zlen vsh) (axes_of ax) in
-    exists r, gen_compute_statistic A res R nan zero isfin ispos shape a (S rf) fuel s ax fin pos (pv o) ncm = Ok r /\
+    exists r, gen_compute_statistic A res R nan zero isfin ispos shape a unb (S rf) fuel st s ax fin pos (pv o) ncm = Ok r /\
       fst r = out_shape vsh red /\
       forall o', in_box (out_shape vsh red) o' ->
         snd r o' = R (map a (filter (fun c => sel_fun shape s c && filt_of A isfin ispos fin pos (a c))
@@ -202,9 +204,10 @@ Print Assumptions translated_statistic_equals_definition.
 (* The SliceSubsetState shortcut of the translated function. *)
 Theorem translated_slice_shortcut :
   forall (A res : Type) (R : list A -> res) (nan zero : res), R [] = nan ->
-  forall (isfin ispos : A -> bool) shape (a : idx -> A) rf fuel (sl : list slice) (fin pos : bool) ncm,
+  forall (isfin ispos : A -> bool) shape (a : idx -> A) (unb : garr A -> garr A) (st : Z) rf fuel (sl : list slice) (fin pos : bool) ncm,
+    unb_sound A res R isfin ispos unb st ->
     Forall (fun n => 0 <= n) shape -> Forall Lemmas5.pos_step sl ->
-    exists r, gen_compute_statistic A res R nan zero isfin ispos shape a (S rf) fuel (SelSlices sl) AxNone fin pos PVNone ncm = Ok r /\
+    exists r, gen_compute_statistic A res R nan zero isfin ispos shape a unb (S rf) fuel st (SelSlices sl) AxNone fin pos PVNone ncm = Ok r /\
       fst r = [] /\
       snd r [] = R (map a (filter (fun c => slices_mask shape sl c && filt_of A isfin ispos fin pos (a c))
                                   (lanep (view_pos shape []) (red_of_axes (zlen shape) None) []))).
@@ -216,7 +219,8 @@ Print Assumptions translated_slice_shortcut.
    iterate_chunks, calls itself on every chunk and assembles a result whose element k is the unchunked textbook value. *)
 Theorem translated_chunking_irrelevant :
   forall (A res : Type) (R : list A -> res) (nan zero : res), R [] = nan ->
-  forall (isfin ispos : A -> bool) shape (a : idx -> A) (ai : nat) (L : list Z) (s : selection) (fin pos : bool) rf fuel ncm,
+  forall (isfin ispos : A -> bool) shape (a : idx -> A) (unb : garr A -> garr A) (st : Z) (ai : nat) (L : list Z) (s : selection) (fin pos : bool) rf fuel ncm,
+    unb_sound A res R isfin ispos unb st ->
     Forall (fun n => 0 < n) shape -> (ai < length shape)%nat ->
     (forall i, 0 <= i < zlen shape -> existsb (Z.eqb i) L = negb (i =? Z.of_nat ai)) ->
     g_is_slice_state s = false ->
@@ -224,7 +228,7 @@ Theorem translated_chunking_irrelevant :
     zprod shape > ncm ->
     (C20.Model.fuel_for shape <= fuel)%nat ->
     exists r,
-      gen_compute_statistic A res R nan zero isfin ispos shape a (S (S rf)) fuel s (AxTuple L) fin pos PVNone ncm = Ok r /\
+      gen_compute_statistic A res R nan zero isfin ispos shape a unb (S (S rf)) fuel st s (AxTuple L) fin pos PVNone ncm = Ok r /\
       fst r = [nth ai shape 0] /\
       forall k, 0 <= k < nth ai shape 0 ->
         snd r [k] = R (map a (filter (fun c => sel_fun shape s c && filt_of A isfin ispos fin pos (a c))
@@ -256,3 +260,22 @@ Theorem translated_histogram_code_total :
     (qsum l == in_range_total lo hi (raw pts))%Q.
 Proof. exact GenEquiv.translated_histogram_code_total. Qed.
 Print Assumptions translated_histogram_code_total.
+
+(* ================= the unbroadcast shortcut of Data.compute_statistic =================
+   "if axis is None and mask is None and statistic not in ('sum', 'percentile'): data = unbroadcast(data)".  The four theorems about the
+   translated function above assume unb_sound: for the statistics the guard lets through, the kernel gives the same overall result on the
+   unbroadcast array (R is invariant under the uniform repetition of its sample: minimum, maximum, mean, median).  unb is ANY function. *)
+
+(* For the sum and the percentiles the guard keeps the shortcut away: the theorems hold with nothing assumed about unbroadcast. *)
+Theorem unb_sound_sum_percentile :
+  forall (A res : Type) (R : list A -> res) (isfin ispos : A -> bool) (unb : garr A -> garr A) (st : Z),
+    st = 4 \/ st = 5 -> unb_sound A res R isfin ispos unb st.
+Proof. exact GenEquiv.unb_sound_sum_percentile. Qed.
+Print Assumptions unb_sound_sum_percentile.
+
+(* Without the guard the shortcut is wrong for the sum (the defect repaired in /repo): with R = sum and the unbroadcast of a pixel
+   coordinate component the hypothesis is false (6 on the unbroadcast array, 18 on the array itself). *)
+Theorem unbroadcast_shortcut_sum_refuted :
+  ~ unb_sound Z Z R_sum (fun _ => true) (fun _ => true) (bc_unbroadcast [true; false]) 0.
+Proof. exact GenEquiv.unbroadcast_shortcut_sum_refuted. Qed.
+Print Assumptions unbroadcast_shortcut_sum_refuted.
